@@ -173,6 +173,8 @@ pub trait TypeOps: Send + Sync {
     fn align_of(&self) -> usize;
     fn packed(&self, ver: u32) -> bool;
     fn schema(&self, ver: u32) -> Schema;
+    /// schema of the context type (Vec<T>, [T;3], ...)
+    fn schema_ctx(&self, ctx: Ctx, ver: u32) -> Schema;
     fn save(&self, c: Container, ver: u32, ctx: Ctx, vals: &[Val], w: &mut dyn Write) -> Result<(), OpErr>;
     fn load(&self, c: Container, ver: u32, ctx: Ctx, r: &mut dyn Read) -> Result<Loaded, OpErr>;
     fn mem_image(&self, v: &Val) -> Vec<u8>;
@@ -225,6 +227,21 @@ where
     }
     fn schema(&self, ver: u32) -> Schema {
         get_schema::<T>(ver)
+    }
+    fn schema_ctx(&self, ctx: Ctx, ver: u32) -> Schema {
+        match ctx {
+            Ctx::Single => get_schema::<T>(ver),
+            Ctx::Vec => get_schema::<Vec<T>>(ver),
+            Ctx::VecDeque => get_schema::<std::collections::VecDeque<T>>(ver),
+            Ctx::Array0 => get_schema::<[T; 0]>(ver),
+            Ctx::Array3 => get_schema::<[T; 3]>(ver),
+            Ctx::BoxSlice => get_schema::<Box<[T]>>(ver),
+            Ctx::ArcSlice => get_schema::<std::sync::Arc<[T]>>(ver),
+            Ctx::Slice => get_schema::<Vec<T>>(ver),
+            Ctx::ArrayVec4 => get_schema::<arrayvec::ArrayVec<T, 4>>(ver),
+            Ctx::Pair => get_schema::<(T, T)>(ver),
+            Ctx::Opt => get_schema::<Option<T>>(ver),
+        }
     }
     fn save(&self, c: Container, ver: u32, ctx: Ctx, vals: &[Val], w: &mut dyn Write) -> Result<(), OpErr> {
         match ctx {
